@@ -560,6 +560,57 @@ class Assembler:
         self.fired.add('18:closure-lifting')
         return head + txt + body
 
+
+    def lift_loop(self, s, item, ed, spec, fnname, is_canary):
+        # 23: loop-body lifting -- the body of the k-th loop of the function is emitted INSTEAD of the function, as a function of
+        # its own: the unit gives the signature (the loop's pattern variables first, then the variables of the enclosing
+        # function the body uses; a variable the body ASSIGNS is passed as `&mut` and listed under `deref`, and every occurrence
+        # of its name inside the body becomes `(*name)` -- the meaning of a loop body's access to an enclosing mutable local).
+        # `continue;` directly in this loop (not in a nested loop) ends the iteration: it becomes `return <tail>;`, and `<tail>`
+        # is appended as the body's value (`tail = "Ok(())"` for a body that uses `?`).  A `break` is an unsupported construct.
+        # What is proved is a contract of ONE iteration for all values of the loop variables and captured state; that the loop
+        # runs the body for every element its iterator yields, in order, is not part of the proof and is stated as such.
+        lf = spec['lift_loop']
+        fp = FnParts(item)
+        loops = fp.loops()
+        if lf['k'] >= len(loops):
+            raise ExtractError('lost anchor: loop %d of fn %s (has %d)' % (lf['k'], fnname, len(loops)))
+        m = s.match()
+        kw, kopen = loops[lf['k']]
+        kclose = m[kopen]
+        if lf.get('head'):
+            # the loop header must still read as the unit expects (pattern and iterated expression), token for token
+            want = extract._tok_strings(lf['head'])
+            got = [s.s(q) for q in range(kw, kopen)]
+            if want != got:
+                raise ExtractError('lost anchor: header of loop %d of fn %s changed' % (lf['k'], fnname))
+        nested = [(a, m[b]) for (a, b) in loops if a > kopen and m[b] < kclose]
+        def in_nested(q):
+            return any(a <= q <= b for a, b in nested)
+        tail = lf.get('tail', '()')
+        for q in range(kopen + 1, kclose):
+            if s.is_id(q, 'break') and not in_nested(q):
+                raise ExtractError('unsupported construct: break inside the lifted loop %d of fn %s' % (lf['k'], fnname))
+            if s.is_id(q, 'continue') and not in_nested(q):
+                ed.replace(s.t[q][1], s.t[q][2], 'return %s' % tail)
+            if s.is_id(q, 'self') and lf.get('self_as'):
+                ed.replace(s.t[q][1], s.t[q][2], lf['self_as'])
+            if s.is_id(q) and s.s(q) in lf.get('deref', []) and not s.is_p(q - 1, '.') and not (s.is_p(q + 1, ':') and not s.is_p(q + 1, '::')):
+                ed.replace(s.t[q][1], s.t[q][2], '(*%s)' % s.s(q))
+        body = ed.apply(s.text, s.t[kopen][2], s.t[kclose][1])
+        res = spec.get('result')
+        ret = lf['ret']
+        head = 'pub fn %s%s(%s) -> %s\n' % (lf['name'], lf.get('generics', ''), lf['params'], ('(%s: %s)' % (res, ret)) if res else ret)
+        if lf.get('where'):
+            head = head.rstrip('\n') + '\n    where %s\n' % lf['where']
+        txt = self.clauses('requires', spec.get('requires', []), '    ', fnname)
+        ens = list(spec.get('ensures', []))
+        txt += self.clauses('ensures', ens, '    ', fnname)
+        if is_canary:
+            txt += ('    ensures\n' if not ens else '') + '        false, // @canary\n'
+        self.fired.add('23:loop-body-lifting')
+        return head + txt + '{' + body + '\n    ' + tail + '\n}'
+
     def mut_refs(self, s, fp, ed, spec, fnname):
         # ghost-journal parameter: `journal_param = true` adds `, verif_journal: &mut VJournal` to the signature, so that the
         # function's ensures clauses can speak about the journal at EVERY exit (early returns, `?`); the stand-ins of the
@@ -627,7 +678,7 @@ class Assembler:
             ed.insert(item.start, '#[verifier::external_body]\n', order=-2)
             self.fired.add('11:assumed-contract(external_body)')
             return
-        if not spec.get('lift'):
+        if not spec.get('lift') and not spec.get('lift_loop'):
             self.fn_contract(s, fp, ed, spec, fnname, is_canary)
         # 17: a `mut self` receiver (Verus: "does not yet support mut self"): `fn f(mut self, ..) { B }` becomes
         # `fn f(self, ..) { let mut verif_self = self; B' }` where B' is B with every `self` token renamed to `verif_self`;
@@ -935,6 +986,10 @@ class Assembler:
                     impl_seg = sg.strip()
             in_trait_impl = bool(impl_seg and (re.search(r'\bfor\b', impl_seg) or impl_seg.startswith('trait')))
             key = (spec['file'], impl_seg) if impl_seg else None
+            if spec.get('lift_loop', {}).get('free') or spec.get('lift', {}).get('free'):
+                # a lifted body emitted as a FREE function (the enclosing impl is a trait impl, which cannot hold an extra
+                # method): `self` tokens of the body are renamed to the parameter named by `self_as`
+                key = None
             if spec.get('hoist_as'):
                 # 20: an associated const hoisted to a free const under a new name (Verus panics -- vir/poly.rs -- on an
                 # associated const of a lifetime-generic type); the text after the name is the real item's, and uses of it are
@@ -1045,6 +1100,8 @@ class Assembler:
                         break
             if item.kind == 'fn' and spec.get('lift'):
                 text = self.lift_closure(s, item, ed, spec, fnname, self.canary == idx)
+            elif item.kind == 'fn' and spec.get('lift_loop'):
+                text = self.lift_loop(s, item, ed, spec, fnname, self.canary == idx)
             else:
                 if spec.get('hoist_as'):
                     if item.kind != 'const':
